@@ -5,7 +5,7 @@ import fontsynth
 
 GEN_MODULES = ["Vm"]
 ASSUMPTIONS = ["theorems: the forest invariant (child chains enumerate exactly the attached slots, no parent cycles, parents real and allocated) for every opcode, action program, garbage collection and the whole modelled left-to-right pipeline; frame and guard theorems; "
-               "not proved: that a parent is a slot of the stream (proved: real, allocated), and the base chain of linkClusters - decided by the correspondence and the end-to-end predicate",
+               "also proved: the parent of a stream slot is a stream slot; not proved: the base chain of linkClusters (not modelled), right-to-left - decided by the correspondence and the end-to-end predicate",
                "the loader's acceptance tests are not modelled: the component harness only runs programs the real loader accepted",
                "scalar opcodes inside action code use the regenerated Gen.Vm bodies"]
 TRUSTED = ["hand-written model GrVerif/Model/{Seg,Action}.lean (tied by correspondence on action programs)", "tools/fontsynth.py (font synthesiser) and tools/heapgen.py"]
